@@ -120,10 +120,16 @@ def cmd_run_alt(args, tier="quick"):
         results = m.setdefault("check_results", {})
         try:
             results.pop("error", None)
-            a = sh(f"git apply {os.path.join(d, 'patch.diff')}", cwd=wt)
+            results.pop("applied", None)
+            pf = os.path.join(d, 'patch.diff')
+            if os.path.exists(os.path.join(d, 'patch_head.diff')):
+                # the same change written again for the current tree (the original conflicts with a later fix: commit)
+                pf = os.path.join(d, 'patch_head.diff')
+                results["applied"] = "patch_head.diff (the same change ported to the current tree; patch.diff conflicts with a later fix: commit)"
+            a = sh(f"git apply {pf}", cwd=wt)
             if a.returncode != 0:
                 # the tree has moved on since the patch was written (later fix: commits): merge it
-                a = sh(f"git apply --3way {os.path.join(d, 'patch.diff')}", cwd=wt)
+                a = sh(f"git apply --3way {pf}", cwd=wt)
                 if a.returncode == 0:
                     results["applied"] = "with --3way (the tree has moved on since the patch was written)"
             if a.returncode != 0 or sh("go build ./...", cwd=wt).returncode != 0:
